@@ -44,6 +44,7 @@ type Rule struct {
 type Line struct {
 	Junk bool   `json:"junk,omitempty"`
 	Text string `json:"text,omitempty"` // junk text
+	Rep  int    `json:"rep,omitempty"`  // junk text = Rep times "x" (a padding line; not spelled out in the case files)
 	Tag  int    `json:"tag"`
 	V    int    `json:"v"`
 }
@@ -51,6 +52,7 @@ type Line struct {
 type File struct {
 	Lines        []Line `json:"lines"`
 	Unterminated bool   `json:"unterminated,omitempty"` // no newline after the last line
+	CRLF         bool   `json:"crlf,omitempty"`         // lines end in CR LF
 }
 
 type ProgObs struct {
@@ -137,10 +139,14 @@ func fileText(fi int, f File) string {
 	for k, l := range f.Lines {
 		if l.Junk {
 			b.WriteString(l.Text)
+			b.WriteString(strings.Repeat("x", l.Rep))
 		} else {
 			fmt.Fprintf(&b, "%d %d %s %d", fi, k, tags[l.Tag], l.V)
 		}
 		if k+1 < len(f.Lines) || !f.Unterminated {
+			if f.CRLF {
+				b.WriteString("\r")
+			}
 			b.WriteString("\n")
 		}
 	}
@@ -418,6 +424,15 @@ func genCase(rng *vlib.Rand, big bool) *Case {
 			default:
 				f.Lines = append(f.Lines, Line{Tag: rng.Intn(3), V: rng.Intn(1000)})
 			}
+		}
+		if i == 0 && n >= 2 && rng.Chance(12) {
+			// a CRLF file whose second line has its CR on the last byte of the first
+			// 128 KiB read and its LF on the first byte of the next: the first line is
+			// padding of the length that puts it there (reads are 131072 bytes)
+			f.CRLF = true
+			f.Lines[1] = Line{Tag: rng.Intn(3), V: rng.Intn(1000)}
+			t := len(fmt.Sprintf("%d %d %s %d", i, 1, tags[f.Lines[1].Tag], f.Lines[1].V))
+			f.Lines[0] = Line{Junk: true, Rep: 131072 - 1 - t - 2}
 		}
 		// an unterminated last line is only a line if it is not empty
 		if n > 0 && rng.Chance(35) && !(f.Lines[n-1].Junk && f.Lines[n-1].Text == "") {
